@@ -366,4 +366,79 @@ def run (failAt : Option Nat) : St → List Op → St × List Res
 
 end WHist
 
+/-! ### the connection's two deadlines (round 5)
+
+`net.Conn` has a read and a write deadline; `SetDeadline` moves both.  `SetCloseDeadline`
+installs the read deadline `Serve`'s blocked read ends at.  A transmit call guards its writes
+with a *watcher*: when the call's context ends before the call returns, the watcher puts a
+deadline into the past and the cleanup function clears it again.  Which setter the watcher
+uses decides whether the read side is disturbed. -/
+namespace ConnDl
+
+inductive Dl | zero | past | at (t : Nat)
+  deriving DecidableEq, Repr
+
+inductive Setter | both | read | write
+  deriving DecidableEq, Repr
+
+structure St where
+  rd : Dl
+  wd : Dl
+  /-- every setter call made on the connection, oldest first -/
+  log : List (Setter × Dl)
+  deriving DecidableEq, Repr
+
+def init : St := ⟨.zero, .zero, []⟩
+
+def setDl (k : Setter) (d : Dl) (s : St) : St :=
+  match k with
+  | .both => { rd := d, wd := d, log := s.log ++ [(k, d)] }
+  | .read => { s with rd := d, log := s.log ++ [(k, d)] }
+  | .write => { s with wd := d, log := s.log ++ [(k, d)] }
+
+/-- a guarded call: nothing when the context outlives it; deadline into the past and cleared on
+return otherwise -/
+def watcher (k : Setter) (ctxEnds : Bool) (s : St) : St :=
+  if ctxEnds then setDl k .zero (setDl k .past s) else s
+
+inductive Ev
+  | closeDeadline (t : Nat)
+  | transmit (ctxEnds : Bool)
+  deriving DecidableEq, Repr
+
+def step (k : Setter) (s : St) : Ev → St
+  | .closeDeadline t => setDl .read (.at t) s
+  | .transmit e => watcher k e s
+
+def run (k : Setter) : St → List Ev → St
+  | s, [] => s
+  | s, e :: es => run k (step k s e) es
+
+/-- the last close deadline among the events -/
+def lastClose : List Ev → Option Nat
+  | [] => none
+  | .closeDeadline t :: es => (lastClose es).orElse fun _ => some t
+  | .transmit _ :: es => lastClose es
+
+/-- when `Serve`'s blocked read gives up: never (`none`), at once (`some 0`), at `t` -/
+def readEnds (s : St) : Option Nat :=
+  match s.rd with
+  | .zero => none
+  | .past => some 0
+  | .at t => some t
+
+/-- does a setter call touch the read deadline -/
+def movesRead : Setter → Bool
+  | .write => false
+  | _ => true
+
+/-- setter names of `net.Conn` as the regenerated facts spell them -/
+def setterOf : String → Option Setter
+  | "SetDeadline" => some .both
+  | "SetReadDeadline" => some .read
+  | "SetWriteDeadline" => some .write
+  | _ => none
+
+end ConnDl
+
 end XmppModel.Close
